@@ -120,7 +120,7 @@ class Contract:
                  known=None, defaults=None, ghost_init=None, varkw=None, ghost_kinds=None,
                  call_asserts=None, call_ghost=None, call_effects=None, target=None, closure=None,
                  body_after_assign=None, locals_in=None, env=False, prefix_checks=None,
-                 crash_invariant=None, rely=None):
+                 crash_invariant=None, rely=None, callee_variants=None):
         self.name = name
         self.target = target or name    # qualified name of the code this contract is checked against
         self.closure = closure or {}    # free variables of a lambda / nested function: name -> kind
@@ -136,6 +136,9 @@ class Contract:
         # concurrency (rely/guarantee): before every operation on the environment, other processes may have changed
         # the file system in any way that keeps this spec true (and never touches this process' own temporary files)
         self.rely = rely
+        # calls of these contracts made by the body are checked against the named variant instead (same real body,
+        # verified separately against the variant: e.g. pack() bodies re-verified for a FragmentsOfRegexps buffer)
+        self.callee_variants = callee_variants or {}
         self.params = params            # ordered dict name -> kind
         self.requires = list(requires)
         self.free_requires = list(free_requires)   # assumed on entry, not asserted at call sites
